@@ -107,7 +107,7 @@ func parseSingleConstraint(c string) ([]*constraint, error) {
 	}
 
 	// Handle x-range (1.x, 1.2.x)
-	if strings.Contains(c, "x") || strings.Contains(c, "X") {
+	if (strings.Contains(c, "x") || strings.Contains(c, "X")) && isXRangeSyntax(c) {
 		return parseXRange(c)
 	}
 
@@ -122,6 +122,14 @@ func parseSingleConstraint(c string) ([]*constraint, error) {
 
 	// Default to exact match
 	return []*constraint{{operator: "=", version: c}}, nil
+}
+
+// isXRangeSyntax reports whether c is written with x-range syntax (digits, dots and
+// x/X placeholders, optionally after a comparator) rather than being a version whose
+// pre-release or build metadata merely contains the letter x (e.g. 1.0.0-next.1).
+func isXRangeSyntax(c string) bool {
+	c = strings.TrimLeft(c, "<>=!")
+	return strings.Trim(c, "0123456789.xX") == ""
 }
 
 // parseCaretRange handles caret ranges (^1.2.3)
